@@ -442,6 +442,154 @@ def compare(obs, mod, cfg):
         diffs.append('summary Matched %s / %s, model %d / %d' % (obs['matched'], obs['read'], mod['matched'], mod['read']))
     return diffs
 
+# ------------------------------------------------------------------ single-failure matrix (spec level, no model)
+
+MATRIX_KINDS = ['missing', 'enotdir', 'dir-as-file', 'dangling-link', 'gzip-truncated', 'gzip-badtrailer', 'gzip-badstored',
+                'gzip-trailing-garbage']
+
+
+def _matrix_bad_input(kind, root, rnd):
+    """Creates the failing input; returns (argument, needs -z, log prefix, lines certainly delivered, lines possibly delivered)."""
+    text = b''.join(b'bad line %d\n' % i for i in range(1, 8))
+    z = gz_member(text, 6)[0]
+    if kind == 'missing':
+        return 'nope.log', False, b'Error opening file nope.log: ', [], []
+    if kind == 'enotdir':
+        return 'h1.log/x', False, b'Error opening file h1.log/x: ', [], []
+    if kind == 'dir-as-file':
+        os.makedirs(os.path.join(root, 'dd'), exist_ok=True)
+        return 'dd', False, b'Error reading dd: ', [], []
+    if kind == 'dangling-link':
+        if not os.path.lexists(os.path.join(root, 'dang')):
+            os.symlink('nowhere', os.path.join(root, 'dang'))
+        return 'dang', False, b'Error opening file dang: ', [], []
+    lines = text.split(b'\n')[:-1]
+    if kind == 'gzip-truncated':
+        data, sure, maybe = z[:len(z) - 1 - rnd.intn(len(z) - 12)], [], lines
+    elif kind == 'gzip-badtrailer':
+        c = bytearray(z)
+        c[len(c) - 1 - rnd.intn(8)] ^= 1 << rnd.intn(8)
+        data, sure, maybe = bytes(c), lines, lines
+    elif kind == 'gzip-badstored':
+        body = b'\x00' + struct.pack('<HH', 5, 5 ^ 0xffff) + text[:5] + b'\x01' + struct.pack('<HH', len(text) - 5, 0x1234) + text[5:]
+        data = b'\x1f\x8b\x08\x00\x00\x00\x00\x00\x00\x03' + body + struct.pack('<II', binascii.crc32(text) & 0xffffffff, len(text))
+        sure, maybe = [], lines[:1]
+    else:
+        data, sure, maybe = z + b'garbage\n', lines, lines
+    name = 'bad-%s.gz' % kind
+    with open(os.path.join(root, name), 'wb') as f:
+        f.write(data)
+    return name, True, b'Error reading ' + enc(name) + b': ', sure, maybe
+
+
+def failure_matrix(ctx, exe, rnd):
+    """The second sentence of the property, asserted DIRECTLY on the real binary (no model in between): for every kind of
+    single-input failure x position of the failing input among healthy ones x --readers: exit status 2, `Read errors`, exactly
+    one [Log] line naming the failing input, every healthy input printed completely (name:lineno:line for all of its lines),
+    and the same command line without the failing input exits 0 with the same healthy output."""
+    root = os.path.join(ctx['work'], 'matrix')
+    shutil.rmtree(root, ignore_errors=True)
+    os.makedirs(root)
+    healthy = {}
+    for i, name in enumerate(['h1.log', 'h2.log', 'h3.log']):
+        ls = [b'%s row %d' % (name.encode(), j) for j in range(1, [3, 40, 1200][i] + 1)]
+        healthy[name] = ls
+        with open(os.path.join(root, name), 'wb') as f:
+            f.write(b'\n'.join(ls) + (b'\n' if i != 1 else b''))   # h2.log: no newline at the end
+    hz = [b'zipped row %d' % j for j in range(1, 30)]
+    with open(os.path.join(root, 'h4.gz'), 'wb') as f:
+        f.write(gz_member(b'\n'.join(hz) + b'\n', 9, b'orig.log')[0])
+    matrix, violations, runs = {}, [], 0
+
+    def expected(names, gunzip):
+        out = []
+        for n in names:
+            ls = hz if (n == 'h4.gz' and gunzip) else healthy.get(n)
+            out += [enc(n) + b':%d:' % (j + 1) + l for j, l in enumerate(ls)]
+        return sorted(out)
+
+    def invoke(args, gunzip, readers, stdin_fd=None):
+        cmd = [exe, 'filter', '-m', '.*', '-e', '{src}:{line}:{0}'] + (['-z'] if gunzip else []) + \
+              ['--readers', str(readers), '--batch', str(rnd.pick([1, 7, 1000]))] + args
+        kw = {'stdin': stdin_fd} if stdin_fd is not None else {'input': b''}
+        pr = subprocess.run(cmd, cwd=root, stdout=subprocess.PIPE, stderr=subprocess.PIPE, timeout=60, **kw)
+        logs = [l[6:] for l in pr.stderr.split(b'\n') if l.startswith(b'[Log] ')]
+        return cmd, pr.returncode, pr.stdout.split(b'\n')[:-1], logs
+
+    for kind in MATRIX_KINDS:
+        cell = {'runs': 0, 'exit2': 0, 'named_once': 0, 'others_complete': 0, 'control_exit0': 0}
+        matrix[kind] = cell
+        for pos in (0, 1, 3):
+            for readers in (1, 2, 8):
+                bad, needz, logpfx, sure, maybe = _matrix_bad_input(kind, root, rnd)
+                gunzip = needz or rnd.intn(2) == 0
+                good = ['h1.log', 'h2.log', 'h3.log'] + (['h4.gz'] if gunzip else [])
+                good = good[:3] if pos != 3 else good
+                args = good[:pos] + [bad] + good[pos:]
+                try:
+                    cmd, rc, out, logs = invoke(args, gunzip, readers)
+                    _, rc0, out0, logs0 = invoke(good, gunzip, readers)
+                except subprocess.TimeoutExpired:
+                    violations.append({'key': 'failure-matrix-hang', 'kind': kind, 'args': args, 'readers': readers})
+                    continue
+                runs += 2
+                cell['runs'] += 1
+                problems = []
+                if rc == 2 and b'Read errors' in logs:
+                    cell['exit2'] += 1
+                else:
+                    problems.append('exit status %d (logs %s), expected 2 with "Read errors"' % (rc, logs[:4]))
+                named = [l for l in logs if l.startswith(logpfx)]
+                fb, fb0 = [[l for l in ll if l.startswith(b'Gunzip error for file ')] for ll in (logs, logs0)]
+                nplain = len([g for g in good if g != 'h4.gz']) if gunzip else 0   # -z on a plain file: one fallback line each
+                others = [l for l in logs if l != b'Read errors' and not l.startswith(logpfx) and l not in fb]
+                if len(named) == 1 and not others and len(fb) == nplain + (1 if gunzip and kind == 'dir-as-file' else 0):
+                    cell['named_once'] += 1
+                else:
+                    problems.append('expected exactly one [Log] line starting %r and no other, got %s' % (logpfx, logs[:4]))
+                mine = sorted(l for l in out if not l.startswith(enc(bad) + b':'))
+                theirs = sorted((l for l in out if l.startswith(enc(bad) + b':')),     # workers may reorder the lines of one input
+                                key=lambda l: int(l[len(enc(bad)) + 1:].split(b':', 1)[0]))
+                exp_bad = [enc(bad) + b':%d:' % (j + 1) + l for j, l in enumerate(maybe)]
+                prefix_ok = theirs[:-1] == exp_bad[:max(len(theirs) - 1, 0)] and len(theirs) <= len(exp_bad) and \
+                    (not theirs or exp_bad[len(theirs) - 1].startswith(theirs[-1]))     # the last line may be cut by the failure
+                if mine == expected(good, gunzip) and prefix_ok and theirs[:len(sure)] == exp_bad[:len(sure)] and len(theirs) >= len(sure):
+                    cell['others_complete'] += 1
+                else:
+                    problems.append('healthy inputs not printed completely / failing input printed wrongly: %d healthy lines of %d, '
+                                    '%d lines of the failing input (between %d and %d expected)'
+                                    % (len(mine), len(expected(good, gunzip)), len(theirs), len(sure), len(maybe)))
+                if rc0 == 0 and logs0 == fb0 and len(fb0) == nplain and sorted(out0) == expected(good, gunzip):
+                    cell['control_exit0'] += 1
+                else:
+                    problems.append('control run without the failing input: exit %d, logs %s' % (rc0, logs0[:3]))
+                if problems and len(violations) < 4:
+                    violations.append({'key': 'failure-matrix', 'kind': kind, 'cmd': ['rare'] + cmd[1:], 'cwd': root, 'problems': problems,
+                                       'explanation': 'a single failing input must be counted (exit 2, one [Log] line naming it) and must '
+                                                      'not keep the other inputs from being printed completely'})
+    # standard input that fails (a directory as stdin): the only input
+    cell = {'runs': 0, 'exit2': 0, 'named_once': 0}
+    matrix['stdin-is-dir'] = cell
+    for args in ([], ['-']):
+        fd = os.open(root, os.O_RDONLY)
+        try:
+            cmd, rc, out, logs = invoke(args, False, 1, stdin_fd=fd)
+        finally:
+            os.close(fd)
+        runs += 1
+        cell['runs'] += 1
+        cell['exit2'] += 1 if rc == 2 and b'Read errors' in logs else 0
+        cell['named_once'] += 1 if len([l for l in logs if l.startswith(b'Error reading <stdin>: ')]) == 1 else 0
+        if not (rc == 2 and b'Read errors' in logs and out == []) and len(violations) < 5:
+            violations.append({'key': 'failure-matrix', 'kind': 'stdin-is-dir', 'cmd': ['rare'] + cmd[1:], 'problems': ['exit %d logs %s' % (rc, logs[:3])]})
+    for kind, cell in matrix.items():
+        if cell['runs'] == 0:
+            violations.append({'key': 'failure-matrix-coverage', 'kind': kind, 'explanation': 'no run exercised this failure kind'})
+    if not violations:
+        shutil.rmtree(root, ignore_errors=True)
+    return runs, violations, matrix
+
+
 class GzOracle:
     """compress/gzip itself is the oracle for what a gzip reader yields (`corr_C06 run C06`, op `gzoracle`); the
     independent RFC1952/zlib computation above cross-checks it: header verdict and failure flag must agree, the decoded
@@ -592,11 +740,17 @@ def run(ctx):
                                'explanation': 'the real rare binary and the Lean model Rare.C06.run (with the file-system and gzip '
                                               'oracle data computed by this script) disagree on this invocation'})
     shutil.rmtree(base, ignore_errors=True)
+    mruns, mviol, matrix = failure_matrix(ctx, exe, rnd)
+    runs += mruns
+    violations += mviol
     stats.update(kinds)
     stats['outside_the_tree_skipped'] = outside
-    return {'runs': runs, 'violations': violations, 'e2e_trees': ntrees, 'e2e_stats': stats,
+    return {'runs': runs, 'violations': violations, 'e2e_trees': ntrees, 'e2e_stats': stats, 'failure_matrix': matrix,
             'gzip_oracle_cross_check': oracle.stats,
             'assumptions': [
+                'failure_matrix: asserted directly on the binary, without the model: every failure kind x position among healthy inputs x '
+                '--readers 1/2/8 gives exit 2 + "Read errors", one [Log] line naming the failing input, every healthy input printed completely; '
+                'the same command without the failing input exits 0',
                 'e2e: the plan comes from the Lean model of the file system (tree sent with the case); file contents and the gzip '
                 'oracle (compress/gzip itself, cross-checked with RFC1952 header rules + zlib) are computed by extra/C06.py; '
                 'a wrong oracle shows up as a mismatch, not as silence',
